@@ -176,6 +176,72 @@ def _convert_returns(stmts: List[ast.stmt], res: str, budget: List[int]) -> List
     return out
 
 
+def _constant_like(e: ast.AST) -> bool:
+    if isinstance(e, ast.Constant):
+        return True
+    if isinstance(e, ast.UnaryOp) and isinstance(e.op, (ast.USub, ast.UAdd)):
+        return _constant_like(e.operand)
+    if isinstance(e, ast.Attribute) and isinstance(e.value, ast.Name) and e.value.id in ("np", "numpy", "math") \
+            and e.attr in ("inf", "nan", "pi", "e", "newaxis"):
+        return True
+    return False
+
+
+class Canon(ast.NodeTransformer):
+    """Shape-only canonicalisation of the view, so that rules need not enumerate mirror images:
+      * `if not c: A else: B`            ->  `if c: B else: A`
+      * `<constant> op x`                ->  `x op' <constant>`   (single comparisons; op' the mirrored operator)
+      * `t = e; return t` (t used once)  ->  `return e`
+    """
+    MIRROR = {ast.Lt: ast.Gt, ast.Gt: ast.Lt, ast.LtE: ast.GtE, ast.GtE: ast.LtE, ast.Eq: ast.Eq, ast.NotEq: ast.NotEq}
+
+    def visit_If(self, n):
+        self.generic_visit(n)
+        if n.orelse and isinstance(n.test, ast.UnaryOp) and isinstance(n.test.op, ast.Not) \
+                and not (len(n.orelse) == 1 and isinstance(n.orelse[0], ast.If)):
+            new = ast.copy_location(ast.If(n.test.operand, n.orelse, n.body), n)
+            return new
+        return n
+
+    def visit_Compare(self, n):
+        self.generic_visit(n)
+        if len(n.ops) == 1 and type(n.ops[0]) in self.MIRROR and _constant_like(n.left) and not _constant_like(n.comparators[0]):
+            return ast.copy_location(ast.Compare(n.comparators[0], [self.MIRROR[type(n.ops[0])]()], [n.left]), n)
+        return n
+
+    def _fold_returns(self, body):
+        out = []
+        for st in body:
+            if isinstance(st, ast.Return) and isinstance(st.value, ast.Name) and out and isinstance(out[-1], ast.Assign) \
+                    and len(out[-1].targets) == 1 and isinstance(out[-1].targets[0], ast.Name) \
+                    and out[-1].targets[0].id == st.value.id and self._uses.get(st.value.id, 0) == 1:
+                prev = out.pop()
+                out.append(ast.copy_location(ast.Return(prev.value), st))
+            else:
+                out.append(st)
+        return out
+
+    def visit_FunctionDef(self, n):
+        uses = {}
+        for x in ast.walk(n):
+            if isinstance(x, ast.Name) and isinstance(x.ctx, ast.Load):
+                uses[x.id] = uses.get(x.id, 0) + 1
+        self._uses = uses
+        self.generic_visit(n)
+        self._uses = uses
+
+        def rec(stmts):
+            stmts = self._fold_returns(stmts)
+            for st in stmts:
+                for fld in ("body", "orelse", "finalbody"):
+                    sub = getattr(st, fld, None)
+                    if isinstance(sub, list) and sub and isinstance(sub[0], ast.stmt):
+                        setattr(st, fld, rec(sub))
+            return stmts
+        n.body = rec(n.body)
+        return n
+
+
 class Inliner:
     def __init__(self, project: Project, private_only: bool = True):
         self.p = project
@@ -188,7 +254,10 @@ class Inliner:
     # ------------------------------------------------------------------ public
     def inlined(self, fi: FunctionInfo) -> ast.AST:
         if fi.qualname not in self.cache:
-            self.cache[fi.qualname] = self._inline_fn(fi, (fi.qualname,))
+            node = self._inline_fn(fi, (fi.qualname,))
+            node = Canon().visit(node)
+            ast.fix_missing_locations(node)
+            self.cache[fi.qualname] = node
         return self.cache[fi.qualname]
 
     def helpers_of(self, fi: FunctionInfo) -> List[str]:
